@@ -50,7 +50,11 @@ impl NonBreakChecker<'_> {
                     Ordering::Greater => return true,
                     // end is on boundary candidate,
                     // check that there are more than one character in the matched word
-                    Ordering::Equal => return input[i..].chars().take(2).count() > 1,
+                    Ordering::Equal => {
+                        if input[i..end_byte].chars().take(2).count() > 1 {
+                            return true;
+                        }
+                    }
                     _ => {}
                 }
             }
